@@ -458,7 +458,9 @@ func (e *Exec) wfB(st *State, v Val, bound string) string {
 		}
 		return and(parts...)
 	case *types.Interface:
-		return fmt.Sprintf("(and (<= 0 (i-tag %s)) (=> (= (i-tag %s) 0) (= (i-pay %s) 0)))", v.S, v.S, v.S)
+		e.sc.typeTag(types.Typ[types.Int]) // declares ptrtag
+		// a boxed pointer refers to an object allocated before the value was read
+		return fmt.Sprintf("(and (<= 0 (i-tag %s)) (=> (= (i-tag %s) 0) (= (i-pay %s) 0)) (=> (ptrtag (i-tag %s)) (and (<= 0 (i-pay %s)) (< (i-pay %s) %s))))", v.S, v.S, v.S, v.S, v.S, v.S, bound)
 	}
 	return "true"
 }
@@ -589,6 +591,7 @@ func (e *Exec) checkPost(st *State, kind, label, goal string, props []string, po
 	if st.pc == "false" {
 		return
 	}
+	goal = e.sc.skolemize(goal)
 	o := &Obligation{
 		Name: e.oblName(kind, label), Kind: kind, Func: e.fn.String(), Pos: pos,
 		Prefix: e.sc.mark(), Goal: goal, PC: st.pc, Script: e.sc, Expect: "unsat", Props: props,
